@@ -270,13 +270,15 @@ def check(P, rep):
         # refused ONLY then: the refusal (the trap behind the expiry test) is reachable only with amount > 0, so approve(0, past ledger)
         # - the standard way to revoke an allowance - is not refused
         for gd in refuse:
-            traps = set()
-            for sid in g.states_after_edges([gd.edge]):
-                cid_, bb_, _ = g.states[sid]
-                t_ = g.ctxs[cid_].body['blocks'][bb_]['term']
-                if t_['t'] == 'call' and t_['to'] < 0:
-                    traps.add((cid_, bb_))
-            okp = bool(traps) and bool(pos) and g.must_guard(list(traps), (), edges(pos))[0]
+            # no failing run takes the refusing edge without ever passing `0 < amount` (before it - short-circuit - or after it)
+            no_pos = g.reach(None, (), edges(pos))
+            starts = []
+            for sid in g.node_states.get((gd.ctx.id, gd.bb), []):
+                if sid in no_pos:
+                    starts.extend(d for d, lab in g.succ[sid] if lab == gd.label)
+            after = g.reach(starts, (), edges(pos)) if starts else set()
+            fails = set(sid for sid, kind, _ in g.exits if kind != 'ok')
+            okp = bool(pos) and not (after & fails)
             rep.check(okp, 'C12.R5', 'approve:refused-only-if-positive', 'the expiry refusal is reachable only with amount > 0 (revoking with amount 0 and a past '
                       'expiration stays possible)', site(g, gd.ctx, gd.bb))
         # refused exactly then: the refusing edge leads to no success exit
